@@ -56,6 +56,8 @@ def run(ctx):
             ctx.ob("C08.S.scrutinee-and-arms-same-string-fn", f.key, "scrutinee string vs arm strings", scrut_uses_pts == (arms_fn == "path_to_string") and scrut_uses_pts,
                    "F17: arm strings are produced by %s (\"a::b\"), the scrutinee by `%s` (token printing, \"a :: b\"): multi-segment attribute names never match" % (arms_fn, scrut.strip()))
             ok = bool(re.search(r":: darling :: export :: Ok \( ref __items \) => \{ if __items \. is_empty \( \) \{ continue ; \} ⟨proc_macro2::TokenStream⟩ \}", txt))
+            # (the same arm as `if !__items.is_empty() { core loop }` when nothing follows it)
+            ok = ok or bool(re.search(r":: darling :: export :: Ok \( ref __items \) => \{ if ! __items \. is_empty \( \) \{ ⟨proc_macro2::TokenStream⟩ \} \}", txt))
             ctx.ob("C08.H.empty-attribute-skipped", f.key, "empty list => continue, else core loop", ok, "Ok(ref __items) arm")
             ok = txt.rstrip().endswith("⟨darling_core::codegen::attrs_field::MatchArms<'_>⟩ } } ⟨core::option::Option<darling_core::codegen::attrs_field::ValuePopulator<'_>>⟩")
             ctx.ob("C08.H.forward-arms-last-then-populate", f.key, "… #forward_unhandled } } #fwd_population", ok, txt[-220:])
@@ -80,23 +82,48 @@ def run(ctx):
         # what is emitted under each state of the filter: the templates that stand under that state,
         # read in program order (one template or several appended one after the other)
         groups = {"only": [], "all": [], "none": []}
-        emitted = []
+        # what reaches the output, with the condition under which it does: where the piece is built,
+        # where it is assigned to the local that is appended, and where the append stands
+        def conj(*pcss):
+            out = [set()]
+            for pcs in pcss:
+                # (the state of a repetition's own iterator is not a condition on the generator's input)
+                pcs = [{a_ for a_ in d if "Iterator>::next(" not in a_} for d in (pcs or [set()])]
+                out = [a_ | b_ for a_ in out for b_ in pcs]
+
+            def consistent(d):
+                seen_ = {}
+                for a_ in d:
+                    l, _, r = a_.rpartition("=")
+                    if r.startswith("('not-in'"):
+                        continue
+                    if l in seen_ and seen_[l] != r:
+                        return False
+                    seen_[l] = r
+                for a_ in d:
+                    l, _, r = a_.rpartition("=")
+                    if r.startswith("('not-in'") and l in seen_ and ("'%s'" % seen_[l]) in r:
+                        return False
+                return True
+            res = []
+            for d in out:
+                if consistent(d) and d not in res:
+                    res.append(d)
+            return res
         for tk in T.events:
-            if tk.kind == "append":
-                for x in T.stream_alts(tk.inner):
-                    if x not in emitted:
-                        emitted.append(x)
-        for s in emitted:
-            if not T.by_stream.get(s) or T.by_stream[s][0].kind == "append":
+            if tk.kind != "append":
                 continue
-            blk0 = T.by_stream[s][0].blk
-            pcs = ctx.pc_strs(f, blk0)
-            if pcs and all(ctx._sat(d, r"discr\(.*self\.0\.filter.*\)=Only$") for d in pcs):
-                groups["only"].append((blk0, T.text(s), pcs))
-            elif pcs and all(ctx._sat(d, r"discr\(.*self\.0\.filter.*\)=All$") for d in pcs):
-                groups["all"].append((blk0, T.text(s), pcs))
-            else:
-                groups["none"].append((blk0, T.text(s), pcs))
+            for s, sites in T.stream_alts_sites(tk.inner):
+                if not T.by_stream.get(s) or T.by_stream[s][0].kind == "append":
+                    continue
+                blk0 = T.by_stream[s][0].blk
+                pcs = conj(ctx.pc_strs(f, blk0), ctx.pc_strs(f, tk.blk), *[ctx.pc_strs(f, b_) for b_ in sites])
+                if pcs and all(ctx._sat(d, r"discr\(.*self\.0\.filter.*\)=Only$") for d in pcs):
+                    groups["only"].append((tk.blk, T.text(s), pcs))
+                elif pcs and all(ctx._sat(d, r"discr\(.*self\.0\.filter.*\)=All$") for d in pcs):
+                    groups["all"].append((tk.blk, T.text(s), pcs))
+                else:
+                    groups["none"].append((tk.blk, T.text(s), pcs))
         for k in groups:
             groups[k].sort(key=lambda x: x[0])
         for blk0, txt, pcs in groups["none"]:
@@ -104,7 +131,7 @@ def run(ctx):
             ok = all(ctx._sat(d, r"will_forward_any\(self\.0\)=False") for d in pcs)
             if not ok:
                 # a path that never asks but already excludes every way to forward anything
-                ok = ctx.pc_entails_call(f, blk0, "darling_core::codegen::attrs_field::ForwardAttrs::<'_>::will_forward_any", [("field", ("param", 1, "self"), "0")], False)
+                ok = ctx.strs_entail_call(f, pcs, "darling_core::codegen::attrs_field::ForwardAttrs::<'_>::will_forward_any", [("field", ("param", 1, "self"), "0")], False)
             ctx.ob("C08.G.forward-none", f.key, "`_ => continue` only", ok and txt.rstrip(" ,") == "_ => continue", "%s under %s" % (txt, [sorted(d) for d in pcs]))
         if groups["all"]:
             seen["all"] += 1
@@ -158,7 +185,7 @@ def run(ctx):
         if ok:
             ctx.ob("C08.E.list-is-cloned", f.key, "List => Ok(list.clone())", all(re.search(r"^core::result::Result::Ok\{.*Clone.*clone\(\(a1\.meta as List\)\.0\)\}$", e) for e in outs["List"]), str(outs["List"])[:200])
             def empty_list(e):
-                if e.startswith("core::result::Result::Ok{syn::attr::MetaList::MetaList{") and "Default>::default()" in e:
+                if e.startswith("core::result::Result::Ok{syn::attr::MetaList::MetaList{") and ("Default>::default()" in e or "proc_macro2::TokenStream::new()" in e):
                     return True
                 # the list built by a private helper of the module
                 m = re.match(r"^core::result::Result::Ok\{(darling_core::[\w:]+)\(", e)
@@ -166,7 +193,7 @@ def run(ctx):
                 if h is None or not str(h.raw.get("vis", "")).startswith("Restricted"):
                     return False
                 vals = ctx.ret_values(h)
-                return bool(vals) and all(v.startswith("syn::attr::MetaList::MetaList{") and "Default>::default()" in v for v in vals)
+                return bool(vals) and all(v.startswith("syn::attr::MetaList::MetaList{") and ("Default>::default()" in v or "proc_macro2::TokenStream::new()" in v) for v in vals)
             ctx.ob("C08.E.path-is-empty-list", f.key, "Path => Ok(empty MetaList)", all(empty_list(e) for e in outs["Path"]), str(outs["Path"])[:260])
             ctx.ob("C08.E.name-value-is-error", f.key, "NameValue => Err(spanned)", all(e.startswith("core::result::Result::Err{darling_core::error::Error::with_span(") for e in outs["NameValue"]), str(outs["NameValue"])[:200])
 
